@@ -187,6 +187,11 @@ pub fn catch<T>(f: impl FnOnce() -> T + std::panic::UnwindSafe) -> Option<T> {
     std::panic::catch_unwind(f).ok()
 }
 
+/// true when built without debug assertions (the `nodebug` stream)
+pub fn is_nodebug() -> bool {
+    !cfg!(debug_assertions)
+}
+
 pub fn is_shortdeck() -> bool {
     cfg!(feature = "shortdeck")
 }
